@@ -9,17 +9,19 @@
 (***************************************************************************)
 EXTENDS SDict, Json, IOUtils
 
-VARIABLES tid, l
+VARIABLES tid, l, tr     \* tr: the events of trace tid, read once in TInit (TLC re-evaluates
+                         \* JsonDeserialize on every reference, so TNext must not mention it)
 
-Traces == JsonDeserialize(IOEnv.TRACE_FILE)
-
-tvars == <<order, vals, op, res, tid, l>>
+tvars == <<order, vals, op, res, tid, l, tr>>
+TView == <<order, vals, tid, l>>
 
 LoggedOrder(ev) == [i \in 1..Len(ev.st) |-> ev.st[i][1]]
 LoggedVals(ev)  == [k \in {ev.st[i][1] : i \in 1..Len(ev.st)} |->
                         ev.st[CHOOSE i \in 1..Len(ev.st) : ev.st[i][1] = k][2]]
 
-TInit == /\ tid \in 1..Len(Traces)
+TInit == \E f \in {JsonDeserialize(IOEnv.TRACE_FILE)} :
+         /\ tid \in 1..Len(f)
+         /\ tr = f[tid]
          /\ l = 1
          /\ order = <<>>
          /\ vals = [x \in {} |-> 0]
@@ -34,8 +36,8 @@ Clause(ev, outs, lo, lv) ==
     ELSE "result_and_state_not_jointly_allowed"
 
 TNext ==
-    /\ l <= Len(Traces[tid])
-    /\ LET ev   == Traces[tid][l]
+    /\ l <= Len(tr)
+    /\ LET ev   == tr[l]
            lo   == LoggedOrder(ev)
            lv   == LoggedVals(ev)
            outs == Outcomes(Cur, ev)
@@ -43,11 +45,11 @@ TNext ==
        IN IF good
           THEN /\ order' = lo /\ vals' = lv /\ op' = [name |-> ev.name] /\ res' = ev.r
                /\ l' = l + 1
-               /\ (l = Len(Traces[tid]) => PrintT(<<"ACCEPT", tid>>))
+               /\ (l = Len(tr) => PrintT(<<"ACCEPT", tid>>))
           ELSE /\ PrintT(<<"REJECT", tid, l, Clause(ev, outs, lo, lv)>>)
-               /\ l' = Len(Traces[tid]) + 1
+               /\ l' = Len(tr) + 1
                /\ UNCHANGED <<order, vals, op, res>>
-    /\ UNCHANGED tid
+    /\ UNCHANGED <<tid, tr>>
 
 TSpec == TInit /\ [][TNext]_tvars
 
